@@ -86,6 +86,26 @@ theorem C05_producers_return (hwf : WF_enq maxEnq progs)
   simp only [beq_iff_eq] at this
   rw [this] at hc; simp [prodWakePc] at hc
 
+/-- **Every execution with faults terminates** (no fairness needed): from a reachable configuration
+`c` no execution has more than `Phi c` steps, and an execution that cannot be extended has all
+threads done — failing items at any position, `maybe_stop` at any point, with or without timeout.
+(`ignore_error = False`, positive batch sizes: see `C04_variant`.) -/
+theorem C05_terminates (hwf : WF_enq maxEnq progs) (hmax : ∀ m b, Prog.batchLoop m b ∈ progs → 0 < m)
+    (hPC : to = true ∨
+      ((0 < maxEnq ∨ (∃ p ∈ progs, p.isStopper = true) ∨ ¬ ∃ p ∈ progs, p.isCons = true) ∧
+       (cap = 0 ∨ (∃ p ∈ progs, p.isCons = true) ∨ ∃ p ∈ progs, p.isStopper = true)))
+    (h : Reachable (init cap maxEnq to false progs) c) {n : Nat} (hn : StepsN c n c') :
+    n ≤ Phi c ∧ (enabled c' = [] → c'.allDone = true) := by
+  have hr : Reachable (init cap maxEnq to false progs) c' := by
+    clear hmax hPC
+    induction hn with
+    | zero => exact h
+    | succ hs _ ih => exact ih (.step h hs)
+  refine ⟨MlModel.C04.C04_bounded_executions hwf hmax h hn, fun hdead => ?_⟩
+  rcases C05_no_deadlock hwf hPC hr with h1 | h1
+  · exact h1
+  · exact absurd hdead h1
+
 /-! ### Non-vacuity (tests) -/
 
 /-- F6's scenario on the repaired model: capacity 1, three producers, one fails while the others
